@@ -636,6 +636,7 @@ static void csr_fesbd_run(const Ctx& c) {
                (unsigned long long)q.second, (unsigned long long)*e);
         h = sx::mix(h, hit);
       },
+      [&](size_t) { return K + ":crash"; },
       [&](size_t i, const std::string& how) {
         df.run([&]() {
           fail(K + ":crash",
@@ -722,6 +723,9 @@ static void csr_units_run(const Ctx& c) {
         for (auto x : v)
           h = sx::mix(h, x);
       },
+      [&](size_t i) {
+        return K + (calls[i].clipped ? "-clipped" : "") + ":crash";
+      },
       [&](size_t i, const std::string& how) {
         df.run([&]() {
           fail(K + (calls[i].clipped ? "-clipped" : "") + ":crash", "%s: %s",
@@ -770,6 +774,7 @@ static void csr_grfile_run(const Ctx& c) {
             });
         }
       },
+      [&](size_t i) { return std::string(keys[i]) + ":crash"; },
       [&](size_t i, const std::string& how) {
         df.run([&]() {
           fail(std::string(keys[i]) + ":crash", "%s: %s", c.str().c_str(),
@@ -835,6 +840,7 @@ static void csc_checks(const std::string& L, const std::string& builder, G& g,
         for (uint64_t u = 0; u < c.r.n; ++u)
           g.sortInEdgesByDst(u);
       },
+      [&](size_t) { return L + ":sortInEdgesByDst:crash"; },
       [&](size_t, const std::string& how) {
         dead = true;
         df.run([&]() {
@@ -1812,13 +1818,8 @@ static sx::EnumCase small_case(const Layout& L) {
     Ref r     = small_decode(d.gi, small_maxm(th));
     galois::setActiveThreads(d.T);
     Ctx ctx{r, d.T, ENAMES[d.E], th};
-    current_case() = L.name;
-    try {
-      L.fn[d.E](ctx);
-    } catch (const sx::Fail& f) {
-      if (key_claim(f.key)) // one report per (case, key), see c11_common.h
-        throw;
-    }
+    // one report per (case, key), see c11_common.h
+    run_reporting_once(L.name, [&]() { L.fn[d.E](ctx); });
   };
   c.describe = [L](uint64_t idx, bool th) {
     Decoded d = decode_cfg(L, idx, th);
@@ -1861,13 +1862,7 @@ static sx::EnumCase family_case(const std::vector<Layout>& Ls) {
     D d = dec(idx, th);
     galois::setActiveThreads(d.T);
     Ctx ctx{family()[d.gi], d.T, ENAMES[d.E], th};
-    current_case() = "family";
-    try {
-      Ls[d.l].fn[d.E](ctx);
-    } catch (const sx::Fail& f) {
-      if (key_claim(f.key))
-        throw;
-    }
+    run_reporting_once("family", [&]() { Ls[d.l].fn[d.E](ctx); });
   };
   c.describe = [Ls, dec](uint64_t idx, bool th) {
     D d = dec(idx, th);
